@@ -367,6 +367,7 @@ func runTiming(r *proxyRig, org *origin, sc scenario, hello []byte) (res timingR
 			if c.head == "" {
 				c.head = fmt.Sprintf("GET http://%s/x HTTP/1.1\r\nHost: %s\r\nX-Delay: %d\r\nUser-Agent: c15\r\n\r\n", org.addr, org.addr, a.D)
 				c.hdSent = 0
+				res.GotReply = false // a new exchange: what counts is ITS response
 			}
 			end := a.K
 			if a.K == -2 {
@@ -573,6 +574,16 @@ func genTiming(lim limits, tier string, r *rng.R) []scenario {
 			}
 			add(st, "ltls-trickle", "ltls", false, append(append([]action{}, pre...), action{Op: "trickle", K: 10, D: 40})...)
 			add(st, "ltls-late-hello", "ltls", false, append(append([]action{}, pre...), action{Op: "sleep", D: lim.TLS / 2}, action{Op: "ltls", K: 50})...)
+			if st.PP {
+				// the PROXY header arrives at ~80 % of its limit; the handshake limit must count from then on:
+				// a hello that then stalls is cut at header arrival + tls limit, a hello that arrives at ~80 % of
+				// the tls limit after the header is still in time
+				late := lim.PP * 4 / 5
+				add(st, "pp-late-then-ltls-silent", "ltls", false, action{Op: "sleep", D: late}, action{Op: "pp", K: -1})
+				add(st, "pp-late-then-ltls-5", "ltls", false, action{Op: "sleep", D: late}, action{Op: "pp", K: -1}, action{Op: "sleep", D: 100}, action{Op: "ltls", K: 5})
+				add(st, "pp-late-then-ltls-late-ok", "idle", false, action{Op: "sleep", D: late}, action{Op: "pp", K: -1},
+					action{Op: "sleep", D: lim.TLS * 4 / 5}, action{Op: "ltls", K: -1})
+			}
 			pre = append(pre, action{Op: "ltls", K: -1})
 		}
 		with := func(more ...action) []action { return append(append([]action{}, pre...), more...) }
@@ -629,6 +640,36 @@ func genTimingRead(tier string) []scenario {
 	sts := []stack{stackByName("plain"), stackByName("tls")}
 	if tier == "thorough" {
 		sts = stacks
+	}
+	// read-header-timeout = 0 is documented as "no limit": once the first byte has arrived in time, a head
+	// completed after the idle limit must still be served (first request and later keep-alive requests)
+	{
+		lim := limits{Idle: 400, Rhdr: 0, Read: 0, TLS: 500, PP: 200}
+		for _, st := range sts {
+			var pre []action
+			if st.PP {
+				pre = append(pre, action{Op: "pp", K: -1})
+			}
+			if st.TLS {
+				pre = append(pre, action{Op: "ltls", K: -1})
+			}
+			with := func(more ...action) []action { return append(append([]action{}, pre...), more...) }
+			add := func(name, phase string, script ...action) {
+				out = append(out, scenario{Name: fmt.Sprintf("%s/rh0-%s", st.Name, name), Stack: st.Name, Script: script, Phase: phase, WaitMs: lim.Idle + 500, Lim: lim})
+			}
+			add("slow-head-served", "upstream", with(action{Op: "sleep", D: 250}, action{Op: "head", K: 10}, action{Op: "sleep", D: 300},
+				action{Op: "head", K: -1}, action{Op: "resp"})...)
+			add("slow-head-served-keepalive", "upstream", with(action{Op: "head", K: -1}, action{Op: "resp"},
+				action{Op: "sleep", D: 250}, action{Op: "head", K: 10}, action{Op: "sleep", D: 300}, action{Op: "head", K: -1}, action{Op: "resp"})...)
+			add("idle-first", "idle", with()...)
+		}
+	}
+	if tier == "thorough" {
+		// a PROXY header timeout of 0 is documented as "no limit": a silent peer is still there after 5.6 s
+		// (longer than the default a zero value could be mistaken for)
+		lim := limits{Idle: 650, Rhdr: 350, Read: 0, TLS: 500, PP: 0}
+		out = append(out, scenario{Name: "pp/pp0-silent-5600", Stack: "pp", Phase: "pphdr", WaitMs: 5600, Lim: lim})
+		out = append(out, scenario{Name: "pp/pp0-partial-5600", Stack: "pp", Phase: "pphdr", WaitMs: 5600, Lim: lim, Script: []action{{Op: "pp", K: 9}}})
 	}
 	for li, lim := range []limits{
 		{Idle: 420, Rhdr: 250, Read: 600, TLS: 500, PP: 200},
